@@ -272,10 +272,14 @@ func CanonReply(v interface{}) string {
 	return fmt.Sprintf("?%T", v)
 }
 
-// CanonFloat prints a float64 by its IEEE bit pattern (what the store keeps), NaN canonicalised.
+// CanonFloat prints a float64 by its IEEE bit pattern (what the store keeps), NaN canonicalised,
+// -0 printed as +0.
 func CanonFloat(f float64) string {
 	if f != f {
 		return "fnan"
+	}
+	if f == 0 {
+		f = 0 // -0 and +0 are one score: the score index stores them alike, only ZSCORE prints the sign
 	}
 	return fmt.Sprintf("f%016x", math.Float64bits(f))
 }
@@ -346,7 +350,12 @@ func (s *SM) ReadE(args ...[]byte) (res string, errs []string) {
 	for i := range args {
 		a[i] = append([]byte{}, args[i]...)
 	}
-	if len(a) > 1 {
+	if name == "mget" {
+		// every argument is a key
+		for i := 1; i < len(a); i++ {
+			a[i] = append([]byte(NS+":"), a[i]...)
+		}
+	} else if len(a) > 1 {
 		a[1] = append([]byte(NS+":"), a[1]...)
 	}
 	cmd := common.BuildCommand(a)
